@@ -21,6 +21,7 @@ pub const COMPONENT_NAMES: &[&str] = &[
     "c35_rec",
     "c35_probe",
     "c35_init",
+    "c35_mix",
 ];
 
 #[derive(Clone, Copy, Debug, PartialEq, Eq, Hash, PartialOrd, Ord)]
